@@ -77,3 +77,13 @@ contract(PP + '.__init__', name='config-symbols', props=['C09'], params={'predef
          loops={'0': dict(idx='i', allocates=True, modifies=['self._symbols[*]'],
                           inv=['i <= cfg_len(predefined_symbols)', 'fresh(self._symbols)',
                                f'forall(lambda j: implies(0 <= j and j < i, {DEFINED}))'])})
+
+
+# ---- symbols given on the command line: defined through create_symbol like all others, so an existing definition is never
+# replaced (a name given twice, or given in the configuration as well, is rejected there)
+KEPT = ('forall(lambda s: implies(old(s in self._symbols), (s in self._symbols)'
+        ' and mapping(self._symbols)[s] is old(mapping(self._symbols))[s]), types={"s": "str"})')
+contract(PP + '.add_cli_symbols', name='cli-symbols', props=['C09'], params={'cli_symbols': 'list[str]'},
+         may_raise={'ValueError': 'True'},
+         ensures=[KEPT], modifies=['self._symbols[*]'], allocates=True,
+         loops={'0': dict(idx='i', allocates=True, modifies=['self._symbols[*]'], inv=[KEPT])})
